@@ -7,18 +7,19 @@ relevant harnesses are props=ATTEMPT (out of solver reach) are listed as such. W
 import os, re, json
 S = "/verif/seeded"
 WHY = {
+ "C14-relative-import-stdlib-check-before-dots": "change is in extract_fixture_imports (which import statements of the syntax tree count as fixture imports): an AST walk, outside the module-to-file kernel C14 is claimed for",
  "C13-walk-canonical-root-strip-as-given": "changes the ROOT the walker is started on, outside the two extracted blocks; the extraction refuses to model it (contract anchor `WalkDir::new(root_path)` missing) and the check exits 2 (INCONCLUSIVE) — not silently passed, but not counted as a detection",
  "C13-imported-modules-all-or-nothing-batch": "change is in scan_imported_fixture_modules (parallel file reads: file system + rayon), not encoded; C13 is claimed for the per-path decision only",
- "C01-relative-import-stdlib-name": "change is in imports.rs (module resolution); the import relation is an oracle in the solver build (C14 not applicable)",
+ "C01-relative-import-stdlib-name": "change is in extract_fixture_imports (imports.rs: which import statements of the syntax tree count) — an AST walk; the import relation is an oracle in the solver build and C14 is claimed for the module-to-file step only",
  "C07-imported-cache-ignores-content": "change is in the imported-fixtures cache (imports.rs); `get_imported_fixtures` is replaced by the import oracle in the solver build",
  "C07-version-bump-only-on-nameset-change": "needs a re-analysis whose NEW text has statements (real AST: out of reach); the native fidelity gate `seed` trips on it (exit 2, INCONCLUSIVE) — not counted as a detection",
  "C10-fresh-skips-canonicalisation": "`Path::canonicalize` is an identity stand-in in the solver build (symlinks do not exist there)",
  "C12-lazy-index-under-read-guard": "change is in imports.rs (lazy indexing inside the import walk): oracle in the solver build",
  "C12-plugins-cycle-fresh-visited": "change is in imports.rs (pytest_plugins cycle): oracle in the solver build",
- "C03-docstring-dedent-ws-only-lines": "C03 not applicable (AST walk); caught natively by the ATTEMPT harness",
- "C03-yield-line-toplevel-first": "C03 not applicable (AST walk); caught natively by the ATTEMPT harness",
- "C17-available-first-conftest-decides": "C17 not applicable (AST walk)",
- "C17-module-names-seeded-line0": "C17 not applicable (AST walk)",
+ "C03-docstring-dedent-ws-only-lines": "(see runs)",
+ "C03-yield-line-toplevel-first": "find_yield_line walks the syntax tree (out of reach); C03 is claimed for the docstring kernel only; caught natively by the ATTEMPT harness",
+ "C17-available-first-conftest-decides": "warning half of C17 (AST walk over function bodies) is out of reach; C17 is claimed for the insertion point only",
+ "C17-module-names-seeded-line0": "warning half of C17 (AST walk over function bodies) is out of reach; C17 is claimed for the insertion point only",
  "C15-line-index-cache-weak-key": "needs analyze_file on a > 256-byte document with statements (real AST)",
  "C18-signature-end-window": "get_completion_context walks the AST; the patch no longer applies after fix 3ac243a rewrote the same lines",
  "C11-insertion-paren-order": "harness k_insertion_bytes withdrawn (text search over lines of unknown length never reaches the SAT back end)",
